@@ -6,6 +6,7 @@ import (
 	"math/rand"
 	"os"
 	"strconv"
+	"strings"
 )
 
 // Gen produces intents adaptively: it may look at the world (committed hub state, external models)
@@ -35,6 +36,7 @@ func weightsFor(profile string) map[string]int {
 		base["batch_race"] = 6
 		base["stake"] = 5
 	case "C04", "C10", "C12", "C13":
+		base["prefix_mix"] = 2
 		if profile == "C10" {
 			base["size_burst"] = 2
 		}
@@ -86,6 +88,7 @@ func weightsFor(profile string) map[string]int {
 	case "C17":
 		base["set_keys"] = 22
 		base["orch_release_steal"] = 3
+		base["val_removed_steal"] = 3
 		base["poll_all"] = 12
 		base["ext_deposit"] = 10
 		base["stake"] = 4
@@ -95,6 +98,7 @@ func weightsFor(profile string) map[string]int {
 		base["clock_jump"] = 4
 	case "C01":
 		base["gov"] = 5
+		base["prefix_mix"] = 3
 	case "C05":
 		base["gov"] = 4
 		base["clock_jump"] = 5
@@ -102,6 +106,10 @@ func weightsFor(profile string) map[string]int {
 		base["oracle_round"] = 3
 		base["user_send"] = 18
 		base["ext_deposit"] = 12
+		if profile == "C11" {
+			base["gov"] = 3
+			base["clock_jump"] = 4
+		}
 	}
 	return base
 }
@@ -459,6 +467,82 @@ func (g *Gen) Step() {
 		g.emit(Intent{T: "orch_poll", V: v, Chain: t.Chain, N: 10})
 		g.emit(Intent{T: "block", Dt: 5, N: 1})
 		w.St.Probe("validator-recreate-scenario")
+	case "val_removed_steal":
+		// a validator leaves staking completely (its record is removed once the unbonding period is over) while its
+		// delegate keys stay in the registry; another validator then tries to register the leaver's external key,
+		// signed with that very key; finally the leaver comes back under its operator address
+		if len(w.Vals) < 3 {
+			break
+		}
+		{
+			v := g.R.Intn(len(w.Vals))
+			var tot int64
+			for _, s := range w.Cfg.Stakes {
+				tot += s
+			}
+			if w.Cfg.Stakes[v]*3 >= tot {
+				break
+			}
+			v2 := (v + 1 + g.R.Intn(len(w.Vals)-1)) % len(w.Vals)
+			ch := g.chain()
+			g.emit(Intent{T: "stake", V: v, Op: "undelegate", Amt: strconv.FormatInt(w.Cfg.Stakes[v], 10)})
+			g.emit(Intent{T: "block", Dt: 5, N: 1})
+			g.emit(Intent{T: "block", Dt: int(w.Cfg.UnbondingSecs) + 10, N: 2})
+			g.emit(Intent{T: "set_keys", V: v2, Chain: ch, Op: "steal_ext_key", Pick: v})
+			g.emit(Intent{T: "block", Dt: 5, N: 1})
+			if g.R.Intn(2) == 0 {
+				g.emit(Intent{T: "stake", V: v, Op: "recreate", Amt: strconv.FormatInt(w.Cfg.Stakes[v], 10)})
+				g.emit(Intent{T: "block", Dt: 5, N: 2})
+			}
+			for i := range w.Vals {
+				g.emit(Intent{T: "orch_poll", V: i, Chain: ch, N: 10})
+			}
+			g.emit(Intent{T: "block", Dt: 5, N: 1})
+			w.St.Probe("validator-removed-steal-scenario")
+		}
+	case "prefix_mix":
+		// two Minter coins whose ids are prefix-related ("1" and "1902") have transfers waiting at the same time; the
+		// shorter coin's transfer pays the highest fee, the longer coin's is large (so is its commission); the batches are
+		// built, signed, executed and observed
+		{
+			var a, b *TokenCfg
+			for i := range w.Cfg.Tokens {
+				for j := range w.Cfg.Tokens {
+					x, y := &w.Cfg.Tokens[i], &w.Cfg.Tokens[j]
+					if x.Chain == "minter" && y.Chain == "minter" && x.ExtID != y.ExtID && strings.HasPrefix(y.ExtID, x.ExtID) {
+						a, b = x, y
+					}
+				}
+			}
+			if a == nil {
+				break
+			}
+			funds := bigOf(w.Cfg.UserFunds)
+			u := g.R.Intn(len(w.Users))
+			g.emit(Intent{T: "user_send", U: u, Chain: "minter", Denom: b.Denom, Amt: g.amount(new(big.Int).Quo(funds, big.NewInt(20))), Fee: []string{"0", "1", g.fee()}[g.R.Intn(3)]})
+			g.emit(Intent{T: "user_send", U: g.R.Intn(len(w.Users)), Chain: "minter", Denom: a.Denom, Amt: g.amount(new(big.Int).Quo(funds, big.NewInt(2000))), Fee: []string{"2", "1000", g.fee()}[g.R.Intn(3)]})
+			g.emit(Intent{T: "block", Dt: 5, N: 1})
+			if g.R.Intn(2) == 0 {
+				g.emit(Intent{T: "req_batch", U: u, Chain: "minter", Denom: a.Denom})
+			}
+			g.emit(Intent{T: "block", Dt: 5, N: 2})
+			for k := 0; k < 2; k++ {
+				for v := range w.Vals {
+					g.emit(Intent{T: "orch_sign", V: v, Chain: "minter"})
+				}
+				g.emit(Intent{T: "block", Dt: 5, N: 1})
+			}
+			for i := 0; i < 3; i++ {
+				g.emit(Intent{T: "relay", Chain: "minter", Op: "batch", Pick: g.R.Intn(8), Gas: "0", U: g.R.Intn(3)})
+			}
+			for k := 0; k < 2; k++ {
+				for v := range w.Vals {
+					g.emit(Intent{T: "orch_poll", V: v, Chain: "minter", N: 10})
+				}
+				g.emit(Intent{T: "block", Dt: 5, N: 1})
+			}
+			w.St.Probe("prefix-mix-scenario")
+		}
 	case "orch_release_steal":
 		// a validator rotates its keys away and back, which releases its first orchestrator account; another
 		// validator then registers that account, and the account keeps sending claims
@@ -570,7 +654,7 @@ func (g *Gen) Step() {
 			break
 		}
 		c05 := g.Profile == "C05" || g.Profile == "C05adv" || g.Profile == "C05size"
-		if (c05 && g.R.Intn(2) == 0) || ((g.Profile == "C01" || g.Profile == "C04" || g.Profile == "C13" || os.Getenv("MHUBSIM_DELIST") != "") && g.R.Intn(4) == 0) {
+		if (c05 && g.R.Intn(2) == 0) || ((g.Profile == "C01" || g.Profile == "C04" || g.Profile == "C13" || g.Profile == "C11" || os.Getenv("MHUBSIM_DELIST") != "") && g.R.Intn(4) == 0) {
 			// a token leaves the list while transfers of it are pending (refunds to its chain can no longer be created)
 			g.emit(Intent{T: "gov", Op: "delist", V: g.R.Intn(len(w.Vals)), Pick: g.R.Intn(9)})
 		} else if g.R.Intn(2) == 0 {
